@@ -144,3 +144,20 @@ impl Timer {
 		}
 	}
 }
+
+/// Verification-only access to the private timer queries (Kani only).
+#[cfg(kani)]
+#[allow(missing_docs, unreachable_pub)]
+impl Timer {
+	pub fn verif_is_past(&self) -> bool {
+		self.is_past()
+	}
+
+	pub fn verif_to_control(&self) -> ControlMessage {
+		self.to_control()
+	}
+
+	pub fn verif_to_sleep(&self) -> Sleep {
+		self.to_sleep()
+	}
+}
